@@ -632,3 +632,135 @@ def rot_atom_major_all_n(ctx, case):
 
 
 contract("C06", "mdtraj/rmsd/src/rotation_sse.h", "rot_atom_major(every-atom-count)", cases=[0, 1, 2, 3], lang="c", replay="rmsd", covers=["returned"], max_paths=100)(rot_atom_major_all_n)
+
+
+# =====================================================================================================
+# inplace_center_and_trace_atom_major for EVERY atom count
+def center_and_trace_all_n(ctx, case):
+    """n = 4q + r atoms (q symbolic), one frame (the frames are independent: contract above, 2 frames): the summing block loop is cut at
+           lane0 + lane1 of the double accumulator of coordinate d  =  TOT(d, 4K),    TOT(d,0) = 0, TOT(d,m+1) = TOT(d,m) + x0[3m+d],
+       the in-place subtracting block loop at
+           memory = (t < 12K ? CEN(t) : x0[t]) for every t,  lane0 + lane1 of the trace accumulator = TR(4K),
+       with CEN(3a+d) = x0[3a+d] - mu_d and TR(m+1) = TR(m) + sum_d (x0[3m+d] - mu_d)^2 (definitions instantiated at the atoms of the arbitrary
+       block, the r tail atoms and the probe atom).  At the entry of the second loop the code's own quotient satisfies mu_d * n = TOT(d, n) (the shift is the
+       mean of THIS frame over ALL its atoms; from there on the shift is cut to an arbitrary number with that property).  Result: every atom
+       below n becomes x - mu, traces[0] = TR(n), nothing at or beyond 3n and no other trace slot is written, every read stays below 3n."""
+    from mdvc.cinterp import CLoopSpec, FV
+
+    r = case
+    ex = ctx.ex
+    c = ctx.load_c("mdtraj/rmsd/src/center.cpp", ["inplace_center_and_trace_atom_major", "aos_deinterleaved_loadu", "aos_interleaved_storeu"], **INC)
+    X, T = Region("coords"), Region("traces")
+    X.mem0, T.mem0 = X.mem, T.mem
+    q = ctx.int("q")
+    ctx.assume(q >= 0, 4 * q.t + r >= 1)
+    n = SInt(4 * q.t + r)
+    TOT = z3.Function("TOT", z3.IntSort(), z3.IntSort(), z3.RealSort())
+    TR = z3.Function("TR", z3.IntSort(), z3.RealSort())
+    CEN = z3.Function("CEN", z3.IntSort(), z3.RealSort())
+    x0 = lambda atom, d: z3.Select(X.mem0, 3 * atom + d)
+    K1, K2, PI, PA = ctx.int("K1"), ctx.int("K2"), ctx.int("probe_index"), ctx.int("probe_atom")
+    ctx.assume(PI >= 0)
+    t_ = z3.Int("t!")
+    SUMS, MUV = ("sx_", "sy_", "sz_"), ("sxf", "syf", "szf")
+    MU = {}
+    tot_step = lambda atom: [TOT(d, atom + 1) == TOT(d, atom) + x0(atom, d) for d in range(3)]
+    cen_def = lambda atom: [CEN(3 * atom + d) == x0(atom, d) - MU[d] for d in range(3)]
+    tr_step = lambda atom: [TR(atom + 1) == TR(atom) + sum((x0(atom, d) - MU[d]) * (x0(atom, d) - MU[d]) for d in range(3))]
+    in_x = lambda p: z3.BoolVal(isinstance(p, Ptr) and p.region is X)
+
+    def havoc1(interp, env, g):
+        interp.setvar(env, "i", K1)
+        interp.setvar(env, "confp", Ptr(X, SInt(12 * K1.t)))
+        out = [K1.t >= 0] + [TOT(d, 0) == 0 for d in range(3)]
+        for d, nm in enumerate(SUMS):
+            l0, l1 = ctx.real(f"{nm}lane0"), ctx.real(f"{nm}lane1")
+            interp.setvar(env, nm, FV([l0, l1, 0.0, 0.0]))
+            out.append(rterm(l0) + rterm(l1) == TOT(d, 4 * K1.t))
+        for l in range(4):
+            out += tot_step(4 * K1.t + l)
+        X.reads.clear()
+        return out
+
+    def inv1(interp, env, g):
+        i = term(interp.getvar(env, "i"))
+        p = interp.getvar(env, "confp")
+        if g.get("entry"):
+            ex.assume(z3.And(*[TOT(d, 0) == 0 for d in range(3)]))
+        out = [("0<=i<=n/4", z3.And(i >= 0, i <= q.t)), ("confp=frame+12i", z3.And(in_x(p), term(p.off) == 12 * i) if isinstance(p, Ptr) else z3.BoolVal(False))]
+        for d, nm in enumerate(SUMS):
+            fv = interp.getvar(env, nm)
+            out.append((f"{nm}:lane0+lane1=sum-of-coordinate-{d}-over-the-atoms-of-the-blocks-done", rterm(fv.v[0]) + rterm(fv.v[1]) == TOT(d, 4 * i)))
+        return out
+
+    def reads_ok(interp, env, g):
+        for t in X.reads:
+            ex.require("block:every-read-stays-below-3n", z3.And(t >= 0, t < 3 * n.t))
+
+    MUL = ("mux_", "muy_", "muz_")
+
+    def havoc2(interp, env, g):
+        # cut: the shift is from here on an arbitrary number with  shift * n = TOT(d, n)  (asserted at loop entry on the code's own quotient, see inv2);
+        # the quotient term itself is forgotten, which keeps the division out of every later query
+        for d, nm in enumerate(MUV):
+            m = ctx.real(f"shift{d}")
+            MU[d] = rterm(m)
+            interp.setvar(env, nm, m)
+            interp.setvar(env, MUL[d], FV([m, m, m, m]))
+        interp.setvar(env, "i", K2)
+        interp.setvar(env, "confp", Ptr(X, SInt(12 * K2.t)))
+        l0, l1 = ctx.real("trace_lane0"), ctx.real("trace_lane1")
+        interp.setvar(env, "trace_", FV([l0, l1, 0.0, 0.0]))
+        X.mem = z3.Lambda([t_], z3.If(t_ < 12 * K2.t, CEN(t_), z3.Select(X.mem0, t_)))
+        X.writes.clear()
+        X.reads.clear()
+        out = [K2.t >= 0, TR(0) == 0, rterm(l0) + rterm(l1) == TR(4 * K2.t)]
+        for l in range(4):
+            out += cen_def(4 * K2.t + l) + tr_step(4 * K2.t + l)
+        return out
+
+    def inv2(interp, env, g):
+        i = term(interp.getvar(env, "i"))
+        p = interp.getvar(env, "confp")
+        fv = interp.getvar(env, "trace_")
+        if g.get("entry"):
+            ex.assume(TR(0) == 0)
+            for l in range(r):
+                ex.assume(z3.And(*tot_step(4 * q.t + l)))
+        mean = []
+        for d, nm in enumerate(MUV if g.get("entry") else ()):  # the shift is not assigned in the loop (auto-havoc would poison it otherwise): entry only
+            m = rterm(interp.getvar(env, nm))
+            mean.append((f"shift[{d}]*n=sum-of-coordinate-{d}-over-all-atoms-of-the-frame(mean)", m * z3.ToReal(n.t) == TOT(d, n.t)))
+            mean.append((f"{MUL[d]}:all-four-lanes-hold-shift[{d}]", z3.And(*[rterm(interp.getvar(env, MUL[d]).v[lane]) == m for lane in range(4)])))
+        return mean + [("0<=i<=n/4", z3.And(i >= 0, i <= q.t)), ("confp=frame+12i", z3.And(in_x(p), term(p.off) == 12 * i) if isinstance(p, Ptr) else z3.BoolVal(False)),
+                ("trace:lane0+lane1=sum-of-squared-centred-coordinates-of-the-blocks-done", rterm(fv.v[0]) + rterm(fv.v[1]) == TR(4 * i)),
+                ("memory:centred-below-12i,untouched-from-12i-on(probe-index)", z3.Select(X.mem, PI.t) == z3.If(PI.t < 12 * i, CEN(PI.t), z3.Select(X.mem0, PI.t)))]
+
+    def exit1(interp, env, g):
+        interp.setvar(env, "i", SInt(q.t))
+    c.loop_specs[("inplace_center_and_trace_atom_major", 1)] = CLoopSpec(havoc1, inv1, at_end=reads_ok, exit_state=exit1)
+    c.loop_specs[("inplace_center_and_trace_atom_major", 3)] = CLoopSpec(havoc2, inv2, at_end=reads_ok, exit_state=exit1)
+    out = ctx.ccall("inplace_center_and_trace_atom_major", Ptr(X, 0), Ptr(T, 0), 1, n)
+    ctx.ensure("returns-normally", out.exc is None)
+    if out.exc is not None:
+        return
+    ctx.cover("returned")
+    ctx.ensure("both-block-loops-met-their-contracts", len(MU) == 3)
+    if len(MU) != 3:
+        return
+    for l in range(r):
+        ctx.assume(*(cen_def(4 * q.t + l) + tr_step(4 * q.t + l)))
+    ctx.assume(*cen_def(PA.t))
+    for d in range(3):
+        ctx.ensure(f"every-atom-below-n:x'[{d}]=x[{d}]-mean[{d}](probe-atom)", z3.Implies(z3.And(PA.t >= 0, PA.t < n.t), z3.Select(X.mem, 3 * PA.t + d) == x0(PA.t, d) - MU[d]))
+    # the stored value is rewritten by z3.simplify (equivalence preserving: reads of the just-written tail cells are resolved through the store chain),
+    # so that the solver sees a polynomial over x0 and the shift instead of products of array reads
+    ctx.ensure("traces[0]=sum-over-all-atoms-of-squared-centred-coordinates", z3.simplify(z3.Select(T.mem, 0)) == TR(n.t))
+    ctx.ensure("nothing-at-or-beyond-3n-is-changed(probe-index)", z3.Implies(PI.t >= 3 * n.t, z3.Select(X.mem, PI.t) == z3.Select(X.mem0, PI.t)))
+    ctx.ensure("only-trace-slot-0-written", all(z3.is_int_value(z3.simplify(w[0])) and z3.simplify(w[0]).as_long() == 0 for w in T.writes) and len(T.writes) >= 1)
+    for t in X.reads:
+        ctx.ensure("tail:every-read-stays-below-3n", z3.And(t >= 0, t < 3 * n.t))
+
+
+contract("C06", "mdtraj/rmsd/src/center_sse.h", "inplace_center_and_trace_atom_major(every-atom-count)", cases=[0, 1, 2, 3], lang="c", replay="rmsd", covers=["returned"],
+         max_paths=100)(center_and_trace_all_n)
